@@ -161,6 +161,126 @@ def run_scenario(sc):
     return obs
 
 
+def task_id_of(task, ordered, ekind, numpy_in):
+    """index of a task as the dispatcher queued it"""
+    a = task[1] if ordered else task
+    if numpy_in:
+        a = a[0] if isinstance(a, tuple) else a
+        return int(a[0][0])
+    if ekind == 'scalar':
+        return a
+    if ekind in ('tuple', 'tuple1', 'list'):
+        return a[0]
+    if ekind == 'dict':
+        return a['a']
+    if ekind in ('str', 'bytes'):
+        return int(a[1:])
+    raise AssertionError(ekind)
+
+
+def result_id_of(val, ordered, numpy_in):
+    v = val[1] if ordered else val
+    if numpy_in:
+        return int(round((float(v[0][0]) - 1) / 3))
+    return (v - 1) // 3
+
+
+def extract_proto(trace, i0, i1, op):
+    """protocol events (vocabulary of Model/Protocol.lean) of one map-family operation, from raw trace[i0:i1]"""
+    ordered = op['op'] in ('map', 'imap')
+    ekind = op.get('elem', 'scalar')
+    numpy_in = op.get('input') == 'nd'
+    evs = []
+    seen_start = set()
+    failed = False
+    job = None
+    import re as _re
+    for rec in trace[i0:i1]:
+        role, kind = rec[2], rec[3]
+        try:
+            if kind == 'q.put' and isinstance(rec[4], str) and rec[4].startswith('tq['):
+                item = rec[5]
+                if isinstance(item, tuple) and len(item) == 2 and isinstance(item[0], int) and isinstance(item[1], tuple) and item[0] >= 0 \
+                        and not callable(item[1][0] if item[1] else None):
+                    w = int(rec[4][3:-1])
+                    job = item[0]
+                    evs.append('d:%d:%s' % (w, ','.join(str(task_id_of(t, ordered, ekind, numpy_in)) for t in item[1])))
+            elif kind == 'q.get' and isinstance(rec[4], str) and rec[4].startswith('tq[') and role.startswith('Worker-'):
+                item = rec[5]
+                if isinstance(item, tuple) and len(item) == 2 and isinstance(item[0], int) and isinstance(item[1], tuple) and item[0] >= 0 \
+                        and not callable(item[1][0] if item[1] else None):
+                    w = int(rec[4][3:-1])
+                    evs.append('p:%d:%s' % (w, ','.join(str(task_id_of(t, ordered, ekind, numpy_in)) for t in item[1])))
+            elif kind == 'user' and rec[4] == 'task' and role.startswith('Worker-'):
+                evs.append('x:%d:%d' % (int(role.split('-')[1]), rec[5]))
+            elif kind == 'q.put' and rec[4] == 'rq':
+                w, results = rec[5]
+                if w is not None:
+                    ok = [r for r in results if r[0] is not None and r[0] >= 0 and r[1] is True]
+                    if ok:
+                        evs.append('s:%d:%s' % (w, ','.join(str(result_id_of(r[2], ordered, numpy_in)) for r in ok)))
+            elif kind == 'q.get' and rec[4] == 'rq':
+                w, results = rec[5]
+                if w is not None:
+                    ok = [r for r in results if r[0] is not None and r[0] >= 0 and r[1] is True]
+                    if ok:
+                        evs.append('r:%s' % ','.join(str(result_id_of(r[2], ordered, numpy_in)) for r in ok))
+            elif kind == 'iter.next':
+                evs.append('y:%d' % result_id_of(rec[5], ordered, numpy_in))
+            elif kind == 'start' and isinstance(rec[4], str) and rec[4].startswith('Worker-'):
+                w = int(rec[4].split('-')[1])
+                if w in seen_start:
+                    evs.append('R:%d' % w)
+                seen_start.add(w)
+            elif (kind == 'event.set' and rec[4] == 'exception_thrown') or kind in ('inject-sigkill',):
+                if not failed:
+                    evs.append('F')
+                    failed = True
+                if kind == 'inject-sigkill':
+                    evs.append('a:%d' % int(rec[4].split('-')[1]))
+        except Exception as e:  # noqa: an entry we cannot interpret is reported, not guessed
+            evs.append('?%s' % type(e).__name__)
+    return evs, failed
+
+
+def extract_disp(trace, i0, i1, op):
+    """dispatcher events (vocabulary of Model/Dispatch.lean) of one (i)map_unordered operation"""
+    evs = []
+    in_draw = False
+    lazy = op['op'] in ('map_unordered', 'map')     # list(generator): the consumer asks again immediately
+    if lazy:
+        evs.append('a')
+    last_s = -1
+    for rec in trace[i0:i1]:
+        role, kind = rec[2], rec[3]
+        if kind == 'draw' and role == 'main':
+            if not in_draw:
+                evs.append('d')
+                in_draw = True
+            continue
+        if role == 'main' and kind in ('q.put', 'iter.next', 'ask'):
+            in_draw = False
+        if kind == 'ask':
+            evs.append('a')
+        elif kind == 'q.put' and isinstance(rec[4], str) and rec[4].startswith('tq[') and role == 'main':
+            item = rec[5]
+            if isinstance(item, tuple) and len(item) == 2 and isinstance(item[0], int) and item[0] >= 0 and isinstance(item[1], tuple):
+                evs.append('s')
+                last_s = len(evs)
+        elif kind == 'q.get' and rec[4] == 'rq':
+            w, results = rec[5]
+            if w is not None:
+                evs.extend('c' for r in results if r[0] is not None and r[0] >= 0 and r[1] is True)
+        elif kind == 'iter.next':
+            evs.append('y')
+            if lazy:
+                evs.append('a')
+    # the chunk iterator is exhausted some time after the last submission (not visible in the trace): lazy marker
+    if 'd' not in evs[last_s:] if last_s >= 0 else True:
+        evs.insert(last_s if last_s >= 0 else len(evs), 'E')
+    return evs
+
+
 def _j(x):
     if isinstance(x, (int, float, str, bool)) or x is None:
         return x
@@ -302,7 +422,7 @@ def _run(sc, S, obs):
 
     try:
         for opi, op in enumerate(sc['ops']):
-            o = {'op': op['op'], 't0': round(S.now - S.t0, 6)}
+            o = {'op': op['op'], 't0': round(S.now - S.t0, 6), 'trace_i0': len(S.trace)}
             obs['ops'].append(o)
             kind = op['op']
             try:
@@ -342,6 +462,16 @@ def _run(sc, S, obs):
                 o['outcome'] = 'raise'
                 o['exc'] = exc_info(e)
             o['t1'] = round(S.now - S.t0, 6)
+            o['trace_i1'] = len(S.trace)
+            if kind in ('map', 'map_unordered', 'imap', 'imap_unordered'):
+                evs, failed = extract_proto(S.trace, o['trace_i0'], o['trace_i1'], op)
+                if failed or o.get('outcome') != 'ok' or op.get('consume', 'all') != 'all':
+                    # after a failure / an abandoned lazy call: every instance drops what it holds, queues are drained
+                    evs = evs + ([] if failed else ['F']) + ['a:%d' % w for w in range(pool.pool_params.n_jobs)] + ['D']
+                o['proto'] = evs
+                if kind in ('imap_unordered', 'map_unordered') and o.get('outcome') == 'ok' and op.get('consume', 'all') == 'all' \
+                        and op.get('input', 'list') in ('list', 'gen'):
+                    o['disp'] = extract_disp(S.trace, o['trace_i0'], o['trace_i1'], op)
             o['exit_results'] = _j(pool.get_exit_results()) if op.get('exit') or op.get('want_exit_results') else None
             try:
                 o['insights'] = pool.get_insights() if pool.pool_params.enable_insights else None
@@ -420,7 +550,13 @@ def _do_map(pool, op, opi, o, mk_funcs, S, obs):
             pause = op.get('consume_pause')
             got = []
             k = 0
-            for v in gen:
+            it = iter(gen)
+            while True:
+                S.rec('ask')
+                try:
+                    v = next(it)
+                except StopIteration:
+                    break
                 got.append(v)
                 io_ev.append(('y', _res_json(v), round(S.now - S.t0, 6)))
                 S.rec('yield', _j(v))
